@@ -121,6 +121,7 @@ type Exec struct {
 	CoverDone      func(id string) bool
 	Params         map[string]int
 	AssertFilter   func(id string) bool
+	HangAsFailure  bool
 	initPhase      bool
 	rtypeT         types.Type
 	pfVars         map[string]*sym.Term
